@@ -73,9 +73,11 @@ ClsVal(c) == CASE c = "00" -> 0 [] c = "01" -> 1 [] c = "FF" -> 255 [] c = "xx" 
      long_head   bt | PS one longer | sep | T                                 (lead dropped)
      ps7 / ps0   00..00 | lead | bt | PS of 7 / 0 octets | sep | T            (a short EM, zero-extended)
      bb06        lead | bt | PS of 8 octets | sep | T | garbage to k          (T not right-aligned)
+     zero3 / zero10 / zerohead   the full layout with its first 3 / first 10 octets / everything before T replaced
+                 by zero octets (as an integer: a genuine message that lost its leading octets)
      random      none of these (arbitrary octets)
      none        there is no encoded message (non-RSA device key)                                        *)
-Shapes == {"full", "short_tail", "short_head", "long_tail", "long_head", "ps7", "ps0", "bb06"}
+Shapes == {"full", "short_tail", "short_head", "long_tail", "long_head", "ps7", "ps0", "bb06", "zero3", "zero10", "zerohead"}
 EMRec(shape, lead, bt, psf, psm, psl, sep, pfx, xo, dgh, dgj, dgv) ==
     [shape |-> shape, lead |-> lead, bt |-> bt, psf |-> psf, psm |-> psm, psl |-> psl, sep |-> sep,
      pfx |-> pfx,   \* the digest-identifier octets; -1 = an octet of class xx (xo = the octet it replaces)
@@ -218,13 +220,20 @@ PfxOther(h, n) == Mutable /\ h # c.h0 /\ Put("pfxother", [c.em EXCEPT !.pfx = DI
 DgOther(h)   == Mutable /\ h # c.h0 /\ Put("dgother", [c.em EXCEPT !.dgh = h])
 \* the same call on an Attestor that has attested other certificates before: same verdict
 Use06 == c.mut = "none" /\ c.via = "value" /\ hist = "fresh" /\ hist' = "used" /\ UNCHANGED <<c, r>>
+\* the same call issued immediately after an ACCEPTED attestation (same goroutine, same Attestor, same device key,
+\* whatever scratch memory the verifier keeps still holding a genuine 00 01 FF.. message): same verdict.  Every
+\* rejected class is presented with such an accepting predecessor.
+AcceptingCtx(x) == x.rel = "root" /\ x.time = "valid" /\ x.alg \in RSALabels /\ LabelHash(x.alg) = x.h0
+AfterAccept06 == /\ c.via = "value" /\ c.kt = "rsa" /\ hist = "fresh"
+                 /\ (c.mut = "none" \/ AcceptingCtx(c))
+                 /\ hist' = "after_accept" /\ UNCHANGED <<c, r>>
 Next06 == \/ \E v \in ByteClass : MutLead(v) \/ MutBT(v) \/ MutPSf(v) \/ MutPSm(v) \/ MutPSl(v) \/ MutSep(v)
           \/ \E j \in 1..19, v \in ByteClass : MutPfx(j, v)
           \/ \E j \in 1..64, v \in ByteClass : MutDg(j, v)
           \/ \E s \in Shapes : Reshape(s)
           \/ \E h \in AllH, n \in BOOLEAN : PfxOther(h, n)
           \/ \E h \in AllH : DgOther(h)
-          \/ Use06
+          \/ Use06 \/ AfterAccept06
 Spec06 == Init06 /\ [][Next06]_vars
 
 \* the property and the sanity theorems, model-checked on the full product
@@ -329,6 +338,7 @@ Init16 == /\ \/ \E kt \in KeyTypes16 \ {"rsa-nonull"}, sa \in SigAlgs16 : c = [S
 Go(x) == hist = "fresh" /\ c' = x /\ r' = Design16(x) /\ UNCHANGED hist
 \* the same certificate parsed after an extension-rich one, after one without any extension, or while other
 \* goroutines are parsing: same result (the parser keeps nothing between calls)
+\* ("buffer_reused": the input is the previous call's input buffer, overwritten in place by the caller with this encoding)
 After(k) == c.op = "parse" /\ hist = "fresh" /\ hist' = k /\ UNCHANGED <<c, r>>
 AddExt(k)   == c.op = "parse" /\ c.tail = "clean" /\ k \notin c.exts /\ Go([c EXCEPT !.exts = @ \cup {k}])
 DropNull    == c.op = "parse" /\ c.tail = "clean" /\ c.kt = "rsa" /\ Go([c EXCEPT !.kt = "rsa-nonull"])
@@ -352,7 +362,7 @@ Next16 == \/ \E k \in ExtKinds : AddExt(k)
           \/ \E t \in {"ws", "garbage"} : PemTrail(t)
           \/ MHPresent
           \/ \E b \in 0..255 : MHAppend(b)
-          \/ \E k \in {"after_rich", "after_bare", "concurrent"} : After(k)
+          \/ \E k \in {"after_rich", "after_bare", "concurrent", "buffer_reused"} : After(k)
 Spec16 == Init16 /\ [][Next16]_vars
 P_C16 == [](C16_Step(c, r))
 \* sanity: the three verdict classes partition the shapes; a lenient shape is one the standard parser refuses
